@@ -152,10 +152,10 @@ CLAIMS['C04'] = {
              'tree (entry + reservations on it) plus the frames hidden by Offline (H i) equal its free frames EXACTLY (fast = exact - offline, tree by tree).'
              ' Theorem conc_quiescent_counters_exact: at the quiescent end of EVERY interleaving of any number of threads using the lower allocator every '
              'huge-entry counter equals the number of free frames of its bitfield again (and is never above it in between).'
-             ' Theorem tree_stats_total: the program tree_stats() never panics, reads only and returns the sum of the tree counters plus the counters of the '
-             'present reservations.' + PART + 'validate(), stats_at(order 0) / is_free, the identification of that sum with the per-tree sums (a partition '
-             'argument over the slot ranges), and the end-of-interleaving statement for the tree counters are carried by the accounting oracle of the '
-             'sequential and concurrent correspondence.'),
+             ' Theorems tree_stats_total / fast_total_exact: the program tree_stats() never panics, reads only, and its free total plus the frames hidden by '
+             'Offline equals the exact total that stats() reports - fast = exact - offline as program outputs, in every invariant state (partition argument over '
+             'the slot ranges).' + PART + 'validate(), stats_at(order 0) / is_free and the end-of-interleaving statement for the tree counters are carried by '
+             'the accounting oracle of the sequential and concurrent correspondence.'),
     'note': TB + ' Upper-level theorems hold for configurations satisfying CfgOk (class ids < 8, ordered policy, tree size < 2^19: every configuration of the repository; derived from elementary checks by CfgOk.of_checks); they depend on the C23 theorem (bv_decide axioms) through the lower search.',
     'technique': 'Lean 4 theorems from the lower and upper invariants + accounting oracle in the sequential differential and at quiescent ends of co-simulated interleavings',
 }
